@@ -97,6 +97,23 @@ def main(tier):
         CKok = rCK.ok.reshape(shapes[1]); CKv = rCK.v.reshape(shapes[1])
         AYok = rAY.ok.reshape(shapes[2]); AYv = rAY.v.reshape(shapes[2])
         ARok = rAR.ok.reshape(shapes[3]); ARv = rAR.v.reshape(shapes[3])
+        # the two inputs of the yield are what the data files record (last record of a key wins), cell by cell: the yield is tied to the
+        # shipped tables themselves, not only to what the library makes of them
+        from .c01 import expected_table, names_by_value, CK_MAP
+        for fname, fn_, names_, nmap, OKm, Vm, ms in (('FluorYield', 'fluor_yield.dat', names_by_value(mac, '_SHELL'), (lambda n: n), FYok, FYv, sh_m),
+                                                   ('CosKronTransProb', 'coskron.dat', names_by_value(mac, '_TRANS'), (lambda n: CK_MAP.get(n, n)), CKok, CKv, tr_m)):
+            tabf, _ = expected_table(refdata.triples(fn_), names_, nmap)
+            nin = 0
+            for a, Z in enumerate(Zs):
+                for b, m in enumerate(ms):
+                    rec = tabf.get((Z, m))
+                    got = float(Vm[a, b]) if OKm[a, b] else None
+                    if (rec is None) != (got is None) or (rec is not None and abs(got - rec) > 1e-10 * abs(rec)):
+                        report(ck, 'c11:input-differs-from-data-file:%s' % fname, lambda: (
+                            '%s(%d,%d) gives %r, the data file records %r: the Auger yield built on it is off' % (fname, Z, m, got, rec),
+                            dict(call='%s(%d,%d)' % (fname, Z, m), returned=got, recorded=rec, flavour=fl)))
+                    nin += rec is not None
+            st['input_cells_tied_to_' + fn_] = nin
 
         # ---- AugerYield -------------------------------------------------------------------------------
         exp_y = np.full(shapes[2], np.nan)         # nan = error expected
